@@ -109,6 +109,8 @@ def execute(program, ctx):
     from sim import trainsim as ts
     from sim.core import Violation
 
+    if program.get("obs_data") and program["obs_data"].get("params"):
+        ts._fresh_code_solve()
     P = ts.build(program)
     n = program["segments"][0]["n"]
     fault = program.get("fault", {})
